@@ -459,11 +459,15 @@ RandParts(t, pool) ==
      ELSE [i \in 1..m |-> IF Coin(5) THEN P1(txt(mixed[2 * i])) ELSE IF Coin(12) THEN P2(txt(mixed[2 * i]), txt(mixed[2 * i]))
                            ELSE P2(b(mixed[2 * i - 1], i = 1, FALSE), b(mixed[2 * i], FALSE, i = m))]
 RandLenParts(u_) ==
-  LET picks == SortSeq(SetToSeq(RandSubset(0..7, 2 * RandomElement(1..2))), LAMBDA a, b : a < b)
+  LET picks == SortSeq(SetToSeq(RandSubset(0..7, 2 * RandomElement(1..3))), LAMBDA a, b : a < b)
       m == Len(picks) \div 2
       txt(n) == ShowNum(Nat2Num(n))
-  IN [i \in 1..m |-> IF Coin(8) THEN P2(txt(picks[2 * i]), txt(picks[2 * i - 1])) ELSE IF Coin(5) THEN P1(txt(picks[2 * i]))
-                     ELSE P2(IF i = 1 /\ Coin(5) THEN MinT ELSE txt(picks[2 * i - 1]), IF i = m /\ Coin(5) THEN MaxT ELSE txt(picks[2 * i]))]
+      \* one time in four the parts span the whole type (from 0 / min to max) and leave holes
+      span == Coin(4)
+      first(i) == IF i = 1 /\ span THEN (IF Coin(2) THEN MinT ELSE c0) ELSE IF i = 1 /\ Coin(5) THEN MinT ELSE txt(picks[2 * i - 1])
+      last(i) == IF i = m /\ (span \/ Coin(5)) THEN MaxT ELSE txt(picks[2 * i])
+  IN [i \in 1..m |-> IF ~span /\ Coin(8) THEN P2(txt(picks[2 * i]), txt(picks[2 * i - 1])) ELSE IF ~span /\ Coin(5) THEN P1(txt(picks[2 * i]))
+                     ELSE P2(first(i), last(i))]
 \* rich: any Unicode; otherwise ASCII only (multi-byte strings and lexical variants belong to the value-space families)
 RandStr(rich) == LET n == RandomElement(0..7) IN [i \in 1..n |-> RandomElement(IF rich THEN {ca, cb, cc, cx, ce, 8364, 128512, 48, 32} ELSE {ca, cb, cc, cx, 48, 32})]
 AllPats == <<ReABC, ReAltABorC, ReAStar, ReStarB, ReDot23, ReNotB, ReABStarC, ReE, ReDot2>> \o MetaPats
@@ -482,7 +486,7 @@ RandGrow(ch, more) ==
 RandKinds == <<"int8", "uint8", "int16", "uint16", "int32", "uint32", "int64", "uint64", "decimal64", "decimal64", "string", "string">>
 RandChainK(k) ==
   LET fd == RandOf(<<1, 2, 3, 6, 12, 17, 18>>)
-      lay == RandOf(<<"top", "top", "local", "xmod">>)
+      lay == IF Coin(3) THEN RandOf(XLays) ELSE RandOf(<<"top", "top", "local", "xmod">>)
       \* half of the leaves are plain, the others stand in a random context
       lctx == IF Coin(2) THEN "plain" ELSE RandOf(Ctxs)
       start == InCtx(Relaid(Chain(k, <<IF k = "decimal64" THEN [Lv0 EXCEPT !.fd = fd] ELSE Lv0>>), lay), lctx)
@@ -522,7 +526,9 @@ RandGroup(u_) ==
       sib == IF n >= 2 /\ Coin(2) THEN RandGrow([ch EXCEPT !.levels = SubSeq(@, 1, n - 1)], 1)
              ELSE [other EXCEPT !.levels[m].rng = last.rng, !.levels[m].len = last.len, !.levels[m].pats = last.pats, !.mod = ch.mod, !.lay = IF ch.lay = "xmod" \/ @ = "xmod" THEN "top" ELSE @]
       sib2 == IF ch.lay = "xmod" /\ sib.lay # "xmod" THEN [sib EXCEPT !.mod = "b"] ELSE sib
-  IN IF Coin(2) THEN <<ch, sib2>> ELSE <<sib2, ch>>
+      \* (a leaf that comes out of a grouping of module a belongs to module b)
+      sib3 == InCtx(sib2, sib2.ctx)
+  IN IF Coin(2) THEN <<ch, sib3>> ELSE <<sib3, ch>>
 \* random lexemes for a compiled type: digit strings around the bounds, sign / zero variants, 17-20 digit values, random Unicode
 RandLexemes(t, n, rich) ==
   IF t.k \in NumKinds THEN
@@ -741,9 +747,139 @@ CtxFam(r) == {InCtx(ch, Ctxs[c]) : ch \in CtxChains(r), c \in 2..Len(Ctxs)}
 CtxPairs == {<<1, 2>>, <<2, 1>>, <<1, 11>>, <<14, 1>>, <<2, 3>>, <<17, 19>>, <<19, 1>>, <<4, 9>>, <<2, 2>>}
 CtxGroupFam(r) == {<<InCtx(ch, Ctxs[p[1]]), InCtx(ch, Ctxs[p[2]])>> : ch \in CtxChains(r), p \in CtxPairs}
                   \cup {<<InCtx(ch, "mandatory"), ch, InCtx(ch, "list-mandatory")>> : ch \in CtxChains(r)}
+\* ------------------------------------------------------------------ round 7 families (group 14; C16 variants in group 8)
+\* (1) decimal64 bounds that differ in the last fraction digit only, at every fraction-digits value and at small,
+\*     middle and large magnitudes (fam 14000 + 10 fd + jj, probed richly as 8100 + 10 fd + jj).  X = 25 * 10^j units has
+\*     j + 2 <= 15 significant digits whatever fraction-digits is: every bound here and its neighbours are decimals that a
+\*     binary double still tells apart, so no verdict of this family rests on the recorded float64 finding.
+\*     Adjacent parts one unit apart are disjoint and legal, a shared bound is an overlap, a part ending one unit below
+\*     its start is descending, a derived part reaching one unit beyond its base part (above, below zero, through
+\*     min / max, beyond the negative end) is not narrowing, one unit inside is; defaults one unit inside / outside.
+UlpJs == <<0, 7, 13>>
+DecUlpFam(fd, jj) ==
+  LET j == UlpJs[IF jj > 3 THEN jj - 3 ELSE jj]
+      full == jj <= 3
+      X == Mk(FALSE, <<2, 5>> \o Zeros(j))
+      X2 == Mk(FALSE, <<5>> \o Zeros(j + 1))
+      Y == Mk(FALSE, <<1>> \o Zeros(j + 1))
+      s(x) == ShowDec(x, fd)
+      z == s(Zero)
+      b1 == <<P2(z, s(X))>>
+      b2 == <<P2(s(Neg(X)), s(X))>>
+      b3 == <<P2(z, s(X)), P2(s(Inc(X)), s(X2))>>                     \* one unit apart: disjoint
+      b4 == <<P2(s(Dec(Y)), s(X))>>                                   \* lower bound with one digit less than its successor
+      b5 == <<P1(s(X)), P1(s(Inc(X)))>>
+      firsts == <<b1, b2, b3, b4, b5,
+                  <<P2(z, s(X)), P2(s(X), s(X2))>>,                   \* shared bound
+                  <<P2(s(Inc(X)), s(X))>>,                            \* ends one unit below its start
+                  <<P2(z, s(Inc(X))), P2(s(X), s(X2))>>,              \* overlap of one unit
+                  <<P2(MinT, s(Dec(Neg(X)))), P2(s(Neg(X)), s(X))>>,
+                  <<P1(s(Inc(X))), P1(s(X))>> >>
+      ders == << <<P2(z, s(Inc(X)))>>, <<P2(z, s(Dec(X)))>>, <<P1(s(Inc(X)))>>, <<P2(s(X), s(Dec(X)))>>, <<P2(z, s(Dec(X))), P1(s(X))>>, <<P2(MinT, s(Inc(X)))>>,
+                 <<P2(z, s(X))>>, <<P2(s(Dec(X)), s(X))>>, <<P2(s(Dec(Zero)), s(X))>>, <<P2(MinT, s(Dec(X)))>>, <<P2(s(X), MaxT)>>,
+                 <<P2(s(Dec(Neg(X))), s(X))>>, <<P2(s(Inc(Y)), s(Inc(Inc(Y))))>>, <<P2(s(Dec(Y)), s(Y)), P2(s(Inc(Y)), s(X))>> >>
+      bases == IF full THEN {b1, b2, b3, b4, b5} ELSE {b1, b3}
+      nd == IF full THEN Len(ders) ELSE 6
+      mk(ls) == [Chain("decimal64", ls) EXCEPT !.levels[1].fd = fd]
+  IN {mk(<<Rg(firsts[i])>>) : i \in 1..Len(firsts)}
+     \cup {mk(<<Rg(b), Rg(ders[i])>>) : b \in bases, i \in 1..nd}
+     \cup {mk(<<Rg(b1), Lv0, Rg(ders[i])>>) : i \in 1..(IF full THEN 6 ELSE 2)}
+     \cup {mk(<<WithDef(Rg(b1), s(X))>>), mk(<<WithDef(Rg(b1), s(Inc(X)))>>), mk(<<WithDef(Rg(b3), s(Inc(X)))>>),
+           mk(<<WithDef(Rg(b1), s(X)), Rg(ders[2])>>), mk(<<Rg(b1), WithDef(Rg(ders[2]), s(Dec(X)))>>), mk(<<WithDef(Rg(b3), s(Inc(X))), Lv0, Rg(ders[2])>>)}
+\* (2) typedef chains of depth 2 to 5 laid out over two modules in every way of XLays: the chain leaves module b at
+\*     every position, local names coincide between the modules at the same / mirrored positions or nowhere, links are
+\*     spelt bare or with the module's own prefix.  A chain of distinct typedefs compiles to what its levels say however
+\*     the typedefs are called (fam 14200 + r; r = 11, 12: reduced for the quick tier; groups 1041x).
+XLayLevels(r) ==
+  CASE r = 1 -> [k |-> "uint8", fd |-> 0, dok |-> T("35"), dbad |-> T("15"), bad |-> Rg(<<P2(c0, T("101"))>>),
+                 L |-> <<Rg(<<P2(c0, T("100"))>>), Rg(<<P2(T("10"), T("90"))>>), Lv0, Rg(<<P2(T("20"), T("80"))>>), Rg(<<P2(T("30"), T("40")), P2(T("50"), T("60"))>>)>>]
+    [] r = 2 -> [k |-> "string", fd |-> 0, dok |-> <<ca, cc>>, dbad |-> <<ca, cc, ca, cc, ca, cc>>, bad |-> Ln(<<P2(c0, c9)>>),
+                 L |-> <<Pt(<<P0(ReNotB)>>), Ln(<<P2(c1, c8)>>), Pt(<<P0(ReABC)>>), Lv0, Ln(<<P2(c2, c3)>>)>>]
+    [] OTHER -> [k |-> "decimal64", fd |-> 2, dok |-> T("3.5"), dbad |-> T("2.1"), bad |-> Rg(<<P2(c2, T("9.51"))>>),
+                 L |-> <<Rg(<<P2(T("1.5"), T("9.5"))>>), Lv0, Rg(<<P2(c2, c9)>>), Rg(<<P2(T("2.25"), T("8.75"))>>), Rg(<<P2(c3, c4), P2(c5, c6)>>)>>]
+XLayChainsOf(r, ns, full) ==
+  LET x == XLayLevels(r)
+      mk(ls) == [Chain(x.k, ls) EXCEPT !.levels[1].fd = x.fd]
+  IN UNION {LET ls == SubSeq(x.L, 1, n) IN
+            {mk(ls), mk([ls EXCEPT ![1] = WithDef(@, x.dbad)]), mk(SubSeq(ls, 1, n - 1) \o <<x.bad>>)}
+            \cup (IF full THEN {mk([ls EXCEPT ![1] = WithDef(@, x.dok)]), mk([ls EXCEPT ![2] = WithDef(@, x.dok)])} ELSE {})
+            : n \in ns}
+XLayOthers ==
+  {Chain("enumeration", <<En(Lv0)>> \o Rp(n, Lv0)) : n \in 1..4} \cup {Chain("union", <<Un(U1)>> \o Rp(n, Lv0)) : n \in 1..4}
+  \cup {Chain("union", <<WithDef(Un(U3), T("-2")), Lv0, Lv0, WithDef(Lv0, T("two"))>>), Chain("boolean", <<Lv0, WithDef(Lv0, T("true")), Lv0, Lv0>>)}
+  \cup {IdCh("a", "a", bn, Rp(n, Lv0)) : bn \in {"b0", "tcp"}, n \in 1..3} \cup {IdCh("a", "a", "b0", <<Lv0, WithDef(Lv0, T("b:e2")), Lv0>>)}
+\* unions whose members are such chains (the leaf in module b, each member laid out on its own)
+XLayUnions ==
+  LET m1 == [Chain("uint8", SubSeq(XLayLevels(1).L, 1, 4)) EXCEPT !.mod = "b"]
+      m2 == [Chain("string", SubSeq(XLayLevels(2).L, 1, 4)) EXCEPT !.mod = "b"]
+  IN {[Chain("union", <<Un(<<[m1 EXCEPT !.lay = l1], UOther, [m2 EXCEPT !.lay = l2]>>)>> \o rest) EXCEPT !.mod = "b"] :
+        l1 \in {"top", "xm-2-same-bare", "xm-2-mirror-own", "xm-3-same-bare"}, l2 \in {"top", "xm-2-same-bare", "xm-1-mirror-bare"}, rest \in {<< >>, <<Lv0>>}}
+XLayFam(r) ==
+  CASE r \in 1..3 -> {Relaid(ch, XLays[l]) : ch \in XLayChainsOf(r, 2..5, TRUE), l \in 1..Len(XLays)}
+    [] r = 4 -> {Relaid(ch, XLays[l]) : ch \in XLayOthers, l \in 1..Len(XLays)}
+    [] r = 5 -> XLayUnions
+    [] r \in 11..13 -> {Relaid(ch, XLays[l]) : ch \in XLayChainsOf(r - 10, {4, 5}, FALSE), l \in 1..Len(XLays)}
+    [] OTHER -> {}
+XLayPairs == {<<"top", "xm-2-same-bare">>, <<"xm-2-same-bare", "top">>, <<"xm-1-same-bare", "xm-2-same-bare">>, <<"xm-2-same-bare", "xm-2-mirror-bare">>,
+              <<"xm-3-same-own", "xm-1-mirror-bare">>, <<"local", "xm-2-same-bare">>, <<"xm-2-uniq-bare", "xm-2-same-own">>, <<"xm-3-mirror-bare", "xm-3-same-bare">>}
+XLayGroupFam(r) == {<<Relaid(ch, p[1]), Relaid(ch, p[2])>> : ch \in XLayChainsOf(r, {4, 5}, FALSE), p \in XLayPairs}
+                   \cup {<<Relaid(ch, "xm-2-same-bare"), ch, Relaid(ch, "xm-3-mirror-bare")>> : ch \in XLayChainsOf(r, {5}, FALSE)}
+\* (3) unions with a member that LOOKS like a catch-all but is not: a string whose multi-part length spans 0 .. max and
+\*     leaves holes, an integer whose range spans min .. max with holes, with patterns / further lengths at other typedef
+\*     levels, beside members that accept little; flat, in typedef'd and inline nested unions, in a typedef of its own.
+\*     A union accepts a value iff some member does (fam 8051; 8052 reduced).
+HoleStr == << <<Ln(<<P2(c0, c3), P2(c8, MaxT)>>)>>,
+              <<Ln(<<P2(MinT, c3), P2(c8, MaxT)>>)>>,
+              <<Ln(<<P2(c0, c3), P2(c5, c6), P2(c8, MaxT)>>)>>,
+              <<Lv0, Ln(<<P2(c0, c3), P2(c8, MaxT)>>)>>,
+              <<Ln(<<P2(c0, c3), P2(c8, MaxT)>>), Lv0, Lv0>>,
+              <<Ln(<<P2(MinT, c4), P2(c7, MaxT)>>), Ln(<<P2(c0, c3), P2(c8, MaxT)>>)>>,
+              <<Pt(<<P0(ReNotB)>>), Ln(<<P2(c0, c3), P2(c8, MaxT)>>)>>,
+              <<Ln(<<P2(c0, c3), P2(c8, MaxT)>>), Pt(<<P0(ReABC)>>)>>,
+              <<Pt(<<P0(ReNotB)>>), Lv0, Ln(<<P2(MinT, c3), P2(c8, MaxT)>>), Lv0>>,
+              <<[Lv0 EXCEPT !.len = <<P2(c0, c3), P2(c8, MaxT)>>, !.pats = <<P0(ReAStar)>>]>>,
+              <<Ln(<<P1(c0), P2(c2, MaxT)>>)>>,
+              <<Ln(<<P2(c0, c3), P2(c8, T("10"))>>)>>,
+              <<Ln(<<P2(c2, c3), P2(c8, MaxT)>>)>>,
+              <<Ln(<<P2(c0, MaxT)>>)>>,
+              <<Ln(<<P2(MinT, MaxT)>>), Lv0>>,
+              <<Lv0, Pt(<<P0(ReABC)>>), Lv0>>,
+              <<Lv0, Lv0>> >>
+HoleInt == << Chain("int8", <<Rg(<<P2(MinT, c3), P2(c8, MaxT)>>)>>), Chain("uint8", <<Lv0, Rg(<<P2(c0, c3), P2(c8, T("255"))>>)>>),
+              [Chain("decimal64", <<Rg(<<P2(MinT, T("3.5")), P2(T("8.5"), MaxT)>>), Lv0>>) EXCEPT !.levels[1].fd = 1] >>
+HoleLows == <<Mem("int8", Rg(<<P2(c1, c5)>>)), Mem("enumeration", En(Lv0)), Chain("string", <<Ln(<<P2(c5, c6)>>), Pt(<<P0(ReABC)>>)>>)>>
+UnionHoleForms(h, o) ==
+  << <<o, h>>, <<h, o>>, <<TU(<<h, UOther>>), o>>, <<o, IU(<<h>>)>>, <<TU(<<TU(<<o, h>>)>>), UOther>>, <<h>>, <<o, h, UOther2>> >>
+UnionHoleFam(full) ==
+  LET hs == {Chain("string", HoleStr[i]) : i \in IF full THEN 1..Len(HoleStr) ELSE {1, 2, 4, 7, 9, 12, 14, 16}} \cup (IF full THEN RangeOf(HoleInt) ELSE {HoleInt[1]})
+      os == IF full THEN RangeOf(HoleLows) ELSE {HoleLows[1]}
+  IN UNION {LET fs == UnionHoleForms(h, o) IN
+            {Chain("union", <<Un(fs[f])>>) : f \in IF full THEN 1..Len(fs) ELSE {1, 3, 4, 6}} \cup {Chain("union", <<Un(fs[f]), Lv0>>) : f \in {2, 3}}
+            : h \in hs, o \in os}
+     \cup {Chain("union", <<Un(<<Chain("string", HoleStr[i]), Chain("string", HoleStr[j])>>)>>) : i \in {1, 3, 7, 12}, j \in {6, 8, 13}}
+\* (4) identityref values are spelt relative to the module the leaf BELONGS to, wherever its statement is written:
+\*     every identityref type (bases of both modules, inline and through typedefs, in a union) on a leaf in every context
+\*     that moves the statement to another file or deeper into its module (fam 8053; groups 1042x: leaves of both modules
+\*     that share one identityref typedef of module a).  A grouping of module a cannot name definitions of module b.
+IdCtxs == <<"uses-foreign", "uses-foreign-mandatory", "uses-foreign-nested", "uses-foreign-container", "augment", "submodule", "submodule-uses", "uses", "list", "case", "refine-mandatory">>
+IdCtxFam ==
+  {InCtx(IdCh(m, "a", bn, rest), IdCtxs[c]) : m \in {"a", "b"}, bn \in {"b0", "d1", "tcp", "udp"}, rest \in {<< >>, <<Lv0>>, <<Lv0, Lv0>>}, c \in 1..Len(IdCtxs)}
+  \cup {InCtx(IdCh("b", "b", bn, rest), c) : bn \in {"e1", "tcp", "d1"}, rest \in {<< >>, <<Lv0>>}, c \in {"augment", "submodule", "submodule-uses", "uses", "list"}}
+  \cup {InCtx(Relaid(IdCh("a", "a", bn, <<Lv0>>), l), c) : bn \in {"b0", "udp"}, l \in {"xmod", "xm-2-same-own", "xm-1-mirror-bare"}, c \in {"augment", "submodule", "submodule-uses", "uses", "list"}}
+  \cup {InCtx([k |-> "union", mod |-> m, lay |-> "top", ctx |-> "plain", idents |-> Idents, levels |-> <<Un(<<IdCh(m, "a", "d1", << >>), Mem("int8", Lv0)>>)>>], IdCtxs[c]) : m \in {"a", "b"}, c \in 1..Len(IdCtxs)}
+IdGroupFam ==
+  UNION {LET A == IdCh("a", "a", bn, <<Lv0>>)
+             B == Relaid(A, "xmod")
+             F(c) == InCtx(IdCh("b", "a", bn, <<Lv0>>), c)
+         IN BothOrders({<<A, B>>, <<A, F("uses-foreign")>>, <<B, F("uses-foreign")>>, <<A, InCtx(A, "submodule")>>, <<B, InCtx(B, "submodule")>>, <<A, InCtx(B, "augment")>>,
+                        <<F("uses-foreign"), F("uses-foreign-nested")>>, <<InCtx(A, "uses"), F("uses-foreign-container")>>})
+            \cup {<<A, F("uses-foreign"), B>>, <<F("uses-foreign"), InCtx(B, "submodule-uses"), A>>}
+         : bn \in {"b0", "tcp", "udp"}}
 \* ------------------------------------------------------------------ family table
 \* fam 10000 + r: r < 100 shared chains, r in 100..199 different bases, 200..299 histories of one typedef, 300.. leaf contexts
-GroupsOf(fam) == LET r == fam % 1000 IN IF r < 100 THEN SharedFam(r) ELSE IF r < 200 THEN DiffBaseFam(r - 100) ELSE IF r < 300 THEN KindHistFam(r - 200) ELSE CtxGroupFam(r - 300)
+\* 410..419 one chain in two layouts over the modules, 420 leaves of both modules sharing an identityref typedef
+GroupsOf(fam) == LET r == fam % 1000 IN IF r < 100 THEN SharedFam(r) ELSE IF r < 200 THEN DiffBaseFam(r - 100) ELSE IF r < 300 THEN KindHistFam(r - 200) ELSE IF r < 400 THEN CtxGroupFam(r - 300)
+                                        ELSE IF r < 420 THEN XLayGroupFam(r - 410) ELSE IdGroupFam
 \* the chains of an exhaustive family (group = fam \div 1000)
 ChainsOf(fam, maxd) ==
   LET g == fam \div 1000  r == fam % 1000 IN
@@ -754,10 +890,12 @@ ChainsOf(fam, maxd) ==
     [] g = 5 -> LenFam(r, maxd)
     [] g = 6 -> (CASE r = 1 -> PatFam(maxd) [] r = 2 -> MixFam [] OTHER -> StrDefFam)
     [] g = 7 -> (CASE r = 1 -> KindFam [] r = 2 -> OtherDefFam [] OTHER -> LayoutFam)
-    [] g = 8 -> (CASE r \in 1..8 -> DirectIntFam(r) [] r \in 11..16 -> DirectDecFam(r - 10) [] r = 20 -> DirectStrFam [] r = 21 -> DirectOtherFam [] r \in 31..49 -> UnionDupFam(r - 30) [] OTHER -> MsgFam)
+    [] g = 8 -> (CASE r \in 1..8 -> DirectIntFam(r) [] r \in 11..16 -> DirectDecFam(r - 10) [] r = 20 -> DirectStrFam [] r = 21 -> DirectOtherFam [] r \in 31..49 -> UnionDupFam(r - 30)
+                    [] r = 51 -> UnionHoleFam(TRUE) [] r = 52 -> UnionHoleFam(FALSE) [] r = 53 -> IdCtxFam [] r \in 100..299 -> DecUlpFam((r - 100) \div 10, (r - 100) % 10) [] OTHER -> MsgFam)
     [] g = 12 -> (CASE r < 10 -> HugeGapFam(r) [] r = 10 -> HugeLenFam [] r \in 21..28 -> LimitIntFam(r - 20) [] r = 30 -> LimitLenFam [] r = 50 -> FdRefFam
                     [] r \in 41..46 -> LimitDecFam(r - 40) [] r \in 101..199 -> DefNarrowFam(r - 100) [] r \in 300..399 -> CtxFam(r - 300) [] OTHER -> DefProbeFam(r - 200))
     [] g = 13 -> BigFam(r)
+    [] g = 14 -> (CASE r < 200 -> DecUlpFam(r \div 10, r % 10) [] r \in 200..299 -> XLayFam(r - 200) [] OTHER -> {})
     [] OTHER -> {}
 \* group 8 (directly constructed types) is probed with lexical variants and multi-byte strings
 Rich(fam) == fam \div 1000 = 8
